@@ -16,6 +16,7 @@ import (
 	"fmt"
 	"io"
 	"net"
+	"strings"
 	"sync"
 	"testing"
 	"testing/synctest"
@@ -38,6 +39,9 @@ type plan struct {
 	SC           int64  `json:"sc"`          // service config timeout in ns; -1 = none
 	C            int64  `json:"c"`           // cancel, ns after RPC start; -1 = none
 	U            int64  `json:"u"`           // blocking condition lifted, ns after RPC start; -1 = never
+	// Retry is set for the points retry_backoff / retry_attempt / retry_over
+	// (see c22_retry_test.go); nil = no retry policy (the points above).
+	Retry *retryPlan `json:"retry,omitempty"`
 }
 
 const (
@@ -73,11 +77,16 @@ func genDur(rt *rapid.T, label string, max int64) int64 {
 
 func genPlan(rt *rapid.T) plan {
 	p := plan{D: -1, SC: -1, C: -1, U: -1}
-	p.Point = rapid.SampledFrom([]string{"pick", "pick", "quota", "quota", "flow", "flow", "recv", "handler"}).Draw(rt, "point")
+	p.Point = rapid.SampledFrom([]string{"retry_backoff", "retry_backoff", "retry_backoff", "retry_attempt", "retry_attempt",
+		"pick", "pick", "quota", "quota", "flow", "flow", "recv", "handler", "retry_over"}).Draw(rt, "point")
 	p.WaitForReady = rapid.IntRange(0, 2).Draw(rt, "wfr") == 0
 	p.MaxStreams = rapid.IntRange(1, 2).Draw(rt, "max_streams")
 	p.MsgBytes = rapid.SampledFrom([]int{1 << 10, 16 << 10, 60 << 10, 100 << 10}).Draw(rt, "msg_bytes")
 	p.StartDelay = rapid.SampledFrom([]int64{0, 1, 999, 1234567, 3 * sec}).Draw(rt, "start_delay")
+	if strings.HasPrefix(p.Point, "retry") {
+		genRetry(rt, &p)
+		return p
+	}
 	max := 3 * day
 	if p.Point == "pick" {
 		max = 15 * sec // below the 20s minimum connect timeout: the subchannel stays CONNECTING
@@ -208,6 +217,27 @@ func (c *call) runUnary(ctx context.Context, cc *grpc.ClientConn, opts []grpc.Ca
 }
 
 func run(t *testing.T, p plan) vk.Result {
+	// A streaming RPC that is stuck in the retry backoff past its end time
+	// freezes the bubble: grpc's context-watcher goroutine of a streaming RPC then
+	// waits for the clientStream mutex (held by the operation parked in the
+	// backoff), a goroutine blocked on a mutex is not durably blocked, so
+	// synctest.Wait never returns and virtual time stops. To turn such a failure
+	// into a verdict instead of a hang, the unary twin of a streaming
+	// retry-backoff plan (no watcher goroutine; also a plan of the domain) is
+	// executed first, and the streaming plan only if the twin holds.
+	if isRetryPoint(p) && !p.Retry.Unary && phaseAt(retryModel(p.Retry), endOf(p)).kind == "backoff" {
+		twin, r := p, *p.Retry
+		r.Unary = true
+		twin.Retry = &r
+		if res := runOne(t, twin); res.Violation != "" {
+			res.Violation = "(unary twin of this streaming plan, executed first) " + res.Violation
+			return res.With("unary_twin_failed")
+		}
+	}
+	return runOne(t, p)
+}
+
+func runOne(t *testing.T, p plan) vk.Result {
 	var res vk.Result
 	msg := vk.Bubble(t, func(t *testing.T) { res = runInBubble(p) })
 	if msg != "" && res.Violation == "" {
@@ -222,6 +252,18 @@ func runInBubble(p plan) (res vk.Result) {
 		return vk.Result{Discard: true}
 	}
 	hs := e2elife.NewHandlers()
+	retry := isRetryPoint(p)
+	var rm []rtAttempt // reference model of the attempts (retry points)
+	var phE rtPhase    // where the model says the RPC is at E
+	stopScripts := make(chan struct{})
+	if retry {
+		rm = retryModel(p.Retry)
+		phE = phaseAt(rm, E)
+		if phE.kind == "ambiguous" {
+			return vk.Result{Discard: true} // E within the jitter uncertainty (shrunk / hand-written plans only)
+		}
+		installScript(hs, p.Retry, stopScripts)
+	}
 	sopts := []grpc.ServerOption{
 		// fixed windows: disables the BDP-based dynamic window so that "the peer
 		// grants no window" is deterministic (64 KiB per stream and connection)
@@ -246,7 +288,9 @@ func runInBubble(p plan) (res vk.Result) {
 		}
 	}
 	var dopts []grpc.DialOption
-	if p.SC >= 0 {
+	if retry {
+		dopts = append(dopts, grpc.WithDefaultServiceConfig(retryServiceConfig(p)))
+	} else if p.SC >= 0 {
 		dopts = append(dopts, grpc.WithDefaultServiceConfig(fmt.Sprintf(
 			`{"methodConfig":[{"name":[{"service":"verif.Life","method":"Call"}],"timeout":"%d.%09ds"}]}`, p.SC/sec, p.SC%sec)))
 	}
@@ -256,7 +300,12 @@ func runInBubble(p plan) (res vk.Result) {
 		return vk.Result{Violation: "VERIF-HARNESS dial: " + err.Error()}
 	}
 	var cancels []context.CancelFunc
+	torn := false
 	teardown := func() {
+		if !torn {
+			torn = true
+			close(stopScripts)
+		}
 		if !gateOpen {
 			close(gate)
 			gateOpen = true
@@ -320,7 +369,7 @@ func runInBubble(p plan) (res vk.Result) {
 		nmsgs = (300<<10)/size + 2
 	}
 	rut := &call{}
-	if p.Point == "handler" {
+	if p.Point == "handler" || (retry && p.Retry.Unary) {
 		go rut.runUnary(ctx, cc, copts)
 	} else {
 		go rut.runStream(ctx, cc, e2elife.Method, nmsgs, size, copts)
@@ -390,10 +439,15 @@ func runInBubble(p plan) (res vk.Result) {
 		synctest.Wait()
 	}
 
-	// --- one nanosecond before E nothing may have terminated
+	// --- one nanosecond before E nothing may have terminated (unless the
+	// reference model says that an attempt legitimately ended the RPC earlier)
+	alive := !retry || phE.kind != "over"
+	if retry {
+		classes = append(classes, retryClasses(p, rm, phE)...)
+	}
 	if E >= 1 {
 		sleepUntil(E - 1)
-		if done, _, ferr, _ := snapshot(); done {
+		if done, _, ferr, _ := snapshot(); done && alive {
 			code, m := e2elife.StatusOf(ferr)
 			return bad("RPC terminated with (%v,%q) %v before its end time E=%v (blocked at %s)", code, m, time.Until(at(E)), time.Duration(E), p.Point)
 		}
@@ -426,9 +480,35 @@ func runInBubble(p plan) (res vk.Result) {
 			blockedAt = "newstream_pick"
 		}
 	}
+	if retry {
+		n, lastExited := rutState(hs)
+		switch {
+		case !alive:
+			blockedAt = "retry_over"
+		case n > 0 && lastExited:
+			blockedAt = fmt.Sprintf("retry_backoff_after_%d", n)
+		default:
+			blockedAt = fmt.Sprintf("retry_attempt_%d", n)
+		}
+		// harness self-check: the system is where the reference model says
+		// (only when E-1 is unambiguously in the same phase as E)
+		if E >= 1 && alive && phaseAt(rm, E-1) == phE {
+			want := fmt.Sprintf("retry_%s_%d", map[string]string{"backoff": "backoff_after", "attempt": "attempt"}[phE.kind], phE.idx+1)
+			if blockedAt != want {
+				return bad("VERIF-HARNESS (retry model): RPC is at %s one ns before E=%v, the model says %s", blockedAt, time.Duration(E), want)
+			}
+		}
+		blockedAt = strings.TrimRight(blockedAt, "_0123456789")
+		if blockedAt == "retry_backoff_after" {
+			blockedAt = "retry_backoff"
+		}
+	}
 	classes = append(classes, "blocked_"+blockedAt)
 	nontrivial := blockedAt == "newstream_quota" || blockedAt == "newstream_pick" || blockedAt == "send"
-	if !unblocked {
+	if retry && alive {
+		nontrivial = phE.kind == "backoff" || (phE.kind == "attempt" && phE.idx >= 1)
+	}
+	if !unblocked && !retry {
 		want := map[string]string{"pick": "newstream_pick", "quota": "newstream_quota", "flow": "send", "recv": "recv", "handler": "invoke"}[p.Point]
 		if blockedAt != want && E >= 1 {
 			return bad("VERIF-HARNESS: RPC is blocked at %s, plan wanted %s (events %d)", blockedAt, want, len(evs))
@@ -447,11 +527,20 @@ func runInBubble(p plan) (res vk.Result) {
 	if !done {
 		return bad("RPC has not terminated at its end time E=%v (blocked at %s; legal codes %v)", time.Duration(E), blockedAt, legal)
 	}
-	if !doneAt.Equal(at(E)) {
+	if !doneAt.Equal(at(E)) && alive {
 		return bad("RPC terminated at %v after start, want exactly E=%v", doneAt.Sub(tStart), time.Duration(E))
 	}
 	code, m := e2elife.StatusOf(ferr)
-	if !legal[code] {
+	if !alive {
+		// the RPC was over before E: nothing to assert about its status beyond
+		// the reference model's prediction (a harness self-check); the handler
+		// contexts are checked below
+		a := rm[phE.idx]
+		if int(code) != a.code || doneAt.Before(at(a.flo)) || doneAt.After(at(a.fhi)) {
+			return bad("VERIF-HARNESS (retry model): RPC ended with (%v,%q) %v after start, the model says attempt %d ends it (%s) with code %d within [%v,%v]",
+				code, m, doneAt.Sub(tStart), phE.idx+1, a.reason, a.code, time.Duration(a.flo), time.Duration(a.fhi))
+		}
+	} else if !legal[code] {
 		return bad("RPC blocked at %s terminated at E=%v with (%v,%q), legal codes: %v", blockedAt, time.Duration(E), code, m, legal)
 	}
 	for _, e := range evs {
@@ -460,7 +549,7 @@ func runInBubble(p plan) (res vk.Result) {
 				return bad("C24 harvest: %s returned %s", e.op, v)
 			}
 		}
-		if e.err != nil && e.at.Before(at(E)) {
+		if e.err != nil && e.at.Before(at(E)) && alive {
 			return bad("%s returned error %v at %v, before E=%v", e.op, e.err, e.at.Sub(tStart), time.Duration(E))
 		}
 	}
@@ -503,6 +592,14 @@ func runInBubble(p plan) (res vk.Result) {
 			hv = fmt.Sprintf("handler context is not done at E=%v (client ended with %v)", time.Duration(E), code)
 			break
 		}
+		if retry && h.Exited && h.ExitAt.Before(at(E)) {
+			// an attempt that the script ended before E: its context is done by E
+			if h.CtxDoneAt.After(at(E)) {
+				hv = fmt.Sprintf("context of the handler of a finished attempt became done %v after start, after E=%v", h.CtxDoneAt.Sub(tStart), time.Duration(E))
+				break
+			}
+			continue
+		}
 		if !h.CtxDoneAt.Equal(at(E)) {
 			hv = fmt.Sprintf("handler context became done %v after start, want E=%v", h.CtxDoneAt.Sub(tStart), time.Duration(E))
 			break
@@ -512,8 +609,11 @@ func runInBubble(p plan) (res vk.Result) {
 	if hv != "" {
 		return bad("%s", hv)
 	}
-	if n := len(hrut); n > 1 {
+	if n := len(hrut); !retry && n > 1 {
 		return bad("RPC reached %d handlers", n)
+	}
+	if n := hs.ByID("rut"); retry && (len(n) > phE.idx+1 || (len(n) < phE.idx+1 && E != rm[phE.idx].thi)) {
+		return bad("VERIF-HARNESS (retry model): RPC reached %d handlers by E=%v, the model says %d", len(n), time.Duration(E), phE.idx+1)
 	}
 	teardown()
 	return vk.Result{NonTrivial: nontrivial, Classes: classes}
